@@ -163,7 +163,8 @@ namespace GeographicLib {
   }
 
   int Utility::lookup(const char* s, char c) {
-    const char* p = strchr(s, toupper(c));
+    // strchr finds the terminating null character when searching for '\0'
+    const char* p = c ? strchr(s, toupper(c)) : NULL;
     return p != NULL ? int(p - s) : -1;
   }
 
